@@ -6,7 +6,7 @@ From Synnax Require Import Cesium.LayoutOk Generated.Consts_C01 Cesium.Store Ces
      Cesium.UnaryIter Cesium.UnaryWrite Cesium.Read Monitors.Mon_C01
      Cesium.IndexSearchProofs Cesium.DomIterProofs Cesium.DistanceProofs Cesium.UnaryIterViews
      Cesium.UnaryIterExact Cesium.SliceProofs Cesium.UnaryIterSpec Cesium.TruthProofs Cesium.ReadProofs
-     Cesium.UnaryWriteProofs Cesium.LayoutCheck Cesium.LegacyWitness Cesium.DistanceChain.
+     Cesium.UnaryWriteProofs Cesium.LayoutCheck Cesium.LegacyWitness Cesium.DistanceChain Cesium.SingleSession Cesium.SingleSessionSpec.
 Import ListNotations.
 Local Open Scope Z_scope.
 
@@ -120,6 +120,49 @@ Theorem C01_uncommitted_invisible : forall st o k t,
 Proof. exact uncommitted_invisible_read. Qed.
 Print Assumptions C01_uncommitted_invisible.
 
+(* Write -> read refinement for one writer session (the fragment of the full statement that is
+   closed end to end): a fresh database with an index channel 1 and a data channel 2 of any data
+   type kind, any file-size cap, any start >= 0; the history OpenWriter([1;2], start); then any
+   number of frames and commits in any order (frames non-empty, same length on both channels,
+   index stamps ascending over the whole session and >= start, total bytes below the cap so
+   that no file rolls over); Close.  Then every operation of the history succeeds and every read
+   of either channel over any range returns exactly the samples made visible by the commits
+   ([visible]: everything written before the last commit that had something to commit) whose
+   index stamps lie in the range — nothing written after it.
+   _partial: one session, one data channel, no rollover; several sessions, rollover and groups
+   that do not write their index are covered by C01_read_exact_partial + the correspondence. *)
+Theorem C01_single_session_exact_partial : forall cap kind start ops,
+  0 <= start -> legal start (abs0 start) ops -> fits cap kind (abs_run start ops) ->
+  let r := w_run (init_state cap [(1, 0, 0); (2, 1, kind)]) (session_history start ops) in
+  let '(Sc, Vc) := visible start ops in
+  Forall (fun o => fst o = 0) (snd r) /\
+  forall t, valid_bounds t -> 0 <= t_s t ->
+    UnaryIterSpec.frame_data (read_chan (s_db (fst r)) 1 t) = read_spec (combine Sc Sc) t /\
+    UnaryIterSpec.frame_data (read_chan (s_db (fst r)) 2 t) = read_spec (combine Sc Vc) t.
+Proof. intros cap kind start ops H0 Hl Hf. exact (single_session_exact cap kind start H0 ops Hl Hf). Qed.
+Print Assumptions C01_single_session_exact_partial.
+
+(* ... stated with the specification itself: [committed h] (Read.v: samples of successful
+   writes made visible by successful commits) for the history of the session with every step
+   successful — which the first conjunct establishes for the model. *)
+Theorem C01_single_session_committed_partial : forall cap kind start ops,
+  0 <= start -> legal start (abs0 start) ops -> fits cap kind (abs_run start ops) ->
+  let chs := [(1, 0, 0); (2, 1, kind)] in
+  let h := session_history start ops in
+  let r := w_run (init_state cap chs) h in
+  Forall (fun o => fst o = 0) (snd r) /\
+  forall t, valid_bounds t -> 0 <= t_s t ->
+    UnaryIterSpec.frame_data (read_chan (s_db (fst r)) 1 t) = read_spec (committed chs h (map (fun _ => 0) h) 1) t /\
+    UnaryIterSpec.frame_data (read_chan (s_db (fst r)) 2 t) = read_spec (committed chs h (map (fun _ => 0) h) 2) t.
+Proof.
+  intros cap kind start ops H0 Hl Hf. cbv zeta.
+  pose proof (single_session_exact cap kind start H0 ops Hl Hf) as E. cbv zeta in E.
+  pose proof (visible_is_committed kind start ops Hl) as V. cbv zeta in V.
+  destruct (visible start ops) as [Sc Vc]. destruct E as [E1 E2]. destruct V as [V1 V2].
+  split; [exact E1|]. intros t Ht Ht0. rewrite V1, V2. apply E2; assumption.
+Qed.
+Print Assumptions C01_single_session_committed_partial.
+
 (* Finding F25 (repaired in /repo by 5e59704): the Distance loop of the pinned upstream tree
    reported a continuous range ending exactly at the end of the second index domain as
    discontinuous, so a read ending on an index file-rollover boundary returned nothing for a
@@ -134,6 +177,18 @@ Print Assumptions C01_legacy_distance_refuted.
    first started 2 ns before its first sample), an int64 and a string data channel; the model
    state it produces satisfies the layout hypothesis, its content is the committed
    specification, and a read whose range ends between samples returns the expected values. *)
+(* non-vacuity of the session theorem: a legal session with a frame written after the last
+   commit, whose samples must stay invisible *)
+Definition ex_ops : list sop :=
+  [SWrite [12; 15] [7; 8]; SCommit; SWrite [20] [9]; SCommit; SCommit; SWrite [21; 30] [10; 11]].
+Example C01_session_nonvacuous :
+  legal 10 (abs0 10) ex_ops /\ fits 0 3 (abs_run 10 ex_ops) /\
+  visible 10 ex_ops = ([12; 15; 20], [7; 8; 9]).
+Proof.
+  split; [cbn; repeat split; try discriminate; try reflexivity; repeat constructor; try lia|].
+  split; [vm_compute; split; reflexivity|reflexivity].
+Qed.
+
 Definition ex_chans : list (Z * Z * Z) := [(1, 0, 0); (2, 1, 0); (3, 1, 3)].
 Definition ex_hist : list wop :=
   [WOpen [1; 2; 3] 100 false;
